@@ -25,7 +25,9 @@ RULE = (
     "equal to re.sub on the original node, element skeleton unchanged; with formatted=True the ODF reading of "
     "the tree equals the reading of the expected per-node result and no text node carries TAB/LF or an "
     "un-encoded space run; search/search_first/search_all/match/text_at agree with re on the ODF reading of "
-    "the root. Class = (call, pattern kind, where matches fall: text / tail / inside span / several nodes, "
+    "the root. The library entry points of the odfdo-replace and odfdo-highlight scripts are run on whole "
+    "generated documents and compared with the same model (text nodes / highlighted character ranges). "
+    "Class = (call, pattern kind, where matches fall: text / tail / inside span / several nodes, "
     "formatted, replacement kind, root tag)."
 )
 SHARDS = {"quick": 16, "thorough": 16}
@@ -45,6 +47,8 @@ REACH = [
     ("odfdo.element", "Element.match", True),
     ("odfdo.element", "Element.text_at", True),
     ("odfdo.paragraph", "Paragraph.append_plain_text", True),
+    ("odfdo.scripts.replace", "search_replace", True),
+    ("odfdo.scripts.highlight", "apply_style", True),
 ]
 
 PATTERNS = [("literal", "beta"), ("space", "a b"), ("class", "[ab]"), ("repeat", "a+"), ("alt", "alpha|ab"), ("anchor^", "^a"), ("anchor$", "a$"), ("word", r"\w+"), ("nomatch", "zzz"), ("dot", "a.b")]
@@ -229,6 +233,7 @@ def gen_call(rng):
 
 
 def run(ctx, res):
+    part_scripts(ctx, res)
     for c in range(CASES[ctx.tier]):
         rng = ctx.rng(c)
         xml = gen_root(rng)
@@ -261,3 +266,107 @@ MANIFEST = {
     "note": "Trusted: Python's re per text node as the meaning of the property; vf/oracles/odftext.py. Known finding F-P4 (search family on elements containing links) is classified on the input tree (presence of text:a).",
     "technique": "runtime monitoring: executable reference model (re per text node on an lxml copy) compared with the real tree after each call + independent white-space interpreter",
 }
+
+
+# --------------------------------------------------------------------------- the scripts
+
+
+def _body(data):
+    root = etree.fromstring(data)
+    return root.find("{urn:oasis:names:tc:opendocument:xmlns:office:1.0}body")
+
+
+def _covered(n, style_attr, style):
+    """Logical characters of each text node covered by a span of that style: list of
+    (node string, covered?) in document order."""
+    out = []
+    for s, owner, is_text in c09.text_nodes(n):
+        start = owner if is_text else owner.getparent()
+        cov = False
+        e = start
+        while e is not None and e is not n.getparent():
+            if e.tag == TX + "span" and e.get(style_attr) == style:
+                cov = True
+                break
+            e = e.getparent()
+        out.append((s, cov))
+    return out
+
+
+def part_scripts(ctx, res):
+    """odfdo-replace and odfdo-highlight on whole documents (their library entry points)."""
+    import argparse
+    import os
+
+    from odfdo.scripts import highlight as HL
+    from odfdo.scripts import replace as RP
+
+    from .. import doclab as DL
+
+    rng = ctx.rng("scripts")
+    n_docs = 6 if ctx.quick else 60
+    for d in range(n_docs):
+        spec = DL.gen_doc_spec(rng, kind="text")
+        spec["table"] = rng.random() < 0.3
+        # headings and paragraphs from the C09 vocabulary so that the patterns match
+        with DL.TmpDir() as tmp:
+            from odfdo import Document, Element
+
+            doc = Document("text")
+            doc.body.clear()
+            for _ in range(rng.randint(2, 6)):
+                pieces = [p for p in c09.gen_pieces(rng) if p[0] not in ("link", "emptylink")]
+                doc.body.append(Element.from_tag(c09.pieces_xml(pieces or [("w", ["alpha"])], heading=rng.random() < 0.3)))
+            src = os.path.join(tmp, "in.odt")
+            doc.save(src)
+            before = DL.Package(src).parts["content.xml"]
+            nb = _body(before)
+            for _ in range(3):
+                pk, pat = rng.choice(PATTERNS)
+                rk, new = rng.choice(REPLS)
+                fmt = rng.random() < 0.4
+                rx = re.compile(pat)
+                dst = os.path.join(tmp, "out.odt")
+                case = {"script": "replace", "pattern": pat, "new": new, "formatted": fmt}
+                res.judge()
+                try:
+                    RP.search_replace(pat, new, src, dst, fmt)
+                    after = DL.Package(dst).parts["content.xml"]
+                    na = _body(after)
+                    model, _cnt, _s = model_replace(nb, rx, new)
+                    if fmt:
+                        ok = logical(na) == logical(model)
+                    else:
+                        ok = text_node_list(na) == text_node_list(model) and skeleton(na) == skeleton(model)
+                    if not ok:
+                        res.violation("script-replace:result-differs-from-model", {"case": case, "expected": logical(model)[:300], "got": logical(na)[:300]}, {"xml": etree.tostring(nb, encoding="unicode"), "call": case})
+                except Exception as e:
+                    res.violation(f"script-replace:raised:{type(e).__name__}", {"case": case, "exc": repr(e)}, {"call": case})
+                res.cls(("script-replace", pk, rk, "formatted" if fmt else "plain"), True)
+            for _ in range(2):
+                pk, pat = rng.choice([p for p in PATTERNS if p[0] not in ("anchor^", "anchor$", "nomatch")])
+                rx = re.compile(pat)
+                args = argparse.Namespace(pattern=pat, color=rng.choice(["", "red"]), background=rng.choice(["", "yellow"]), italic=rng.random() < 0.5, bold=True)
+                res.judge()
+                case = {"script": "highlight", "pattern": pat}
+                try:
+                    doc2 = Document(src)
+                    HL.highlight_document(doc2, args)
+                    out = os.path.join(tmp, "hl.odt")
+                    doc2.save(out)
+                    na = _body(DL.Package(out).parts["content.xml"])
+                    if logical(na) != logical(nb):
+                        res.violation("script-highlight:text-changed", {"case": case, "before": logical(nb)[:300], "after": logical(na)[:300]}, {"call": case})
+                    style = [e.get(TX + "style-name") for e in na.iter(TX + "span") if (e.get(TX + "style-name") or "").startswith("odfdo_20_highlight")]
+                    if style:
+                        got = "".join(("#" * len(s)) if cov else s for s, cov in _covered(na, TX + "style-name", style[0]))
+                    else:
+                        got = logical(na)
+                    exp = "".join(rx.sub(lambda m: "#" * len(m.group()), s) for s, _o, _t in c09.text_nodes(nb))
+                    # compare on the text-node characters only (white-space elements carry no text)
+                    got_nodes = "".join(("#" * len(s)) if cov else s for s, cov in _covered(na, TX + "style-name", style[0])) if style else "".join(s for s, _o, _t in c09.text_nodes(na))
+                    if got_nodes != exp:
+                        res.violation("script-highlight:highlighted-ranges-differ", {"case": case, "expected": exp[:300], "got": got_nodes[:300]}, {"call": case})
+                except Exception as e:
+                    res.violation(f"script-highlight:raised:{type(e).__name__}", {"case": case, "exc": repr(e)}, {"call": case})
+                res.cls(("script-highlight", pk), True)
